@@ -22,9 +22,10 @@ def render(vals=None):
            'struct VInst { @location(2) m: vec4<f32> }', 'struct VBuiltins { @builtin(vertex_index) vi: u32, @builtin(instance_index) ii: u32 }']
     ms = []
     nb = 0
+    sbs = v.get('second_blend_source') or [False] * len(v['members'])
     for i, (k, l) in enumerate(v['members']):
         if k == 'loc':
-            ms.append(f'@location({l}u) c{i}: vec4<f32>')
+            ms.append(f'@location({l}u) ' + ('@second_blend_source ' if sbs[i] else '') + f'c{i}: vec4<f32>')
         else:
             ms.append(f'@builtin(frag_depth) c{i}: f32' if nb == 0 else f'@builtin(sample_mask) c{i}: u32')
             nb += 1
@@ -93,8 +94,8 @@ def build(ctx):
     h.res_loc = z3.BitVec('result_location', 32)
     fout = next(i for i, t in enumerate(mj['types']) if t['name'] == 'FOut')
 
-    def binding(kind, loc):
-        return c.sym_enum('Binding', kind, {'BuiltIn': [Opaque('builtin')], 'Location': [loc, False, none(), none()]})
+    def binding(kind, loc, sbs=False):
+        return c.sym_enum('Binding', kind, {'BuiltIn': [Opaque('builtin')], 'Location': [loc, sbs, none(), none()]})
     rb = Agg('Option', {'Some': [binding(h.res_kind, h.res_loc)], 'None': []},
              disc=z3.If(h.res_bound, z3.BitVecVal(1, 64), z3.BitVecVal(0, 64)))
     hvec4 = next(i for i, t in enumerate(mj['types']) if t['inner'].get('Vector') == {'size': 'Quad', 'scalar': {'kind': 'Float', 'width': 4}})
@@ -113,11 +114,15 @@ def build(ctx):
     # members of FOut
     types = c.get(module, 'types').fields[0].items
     members = c.get(types[fout], 'inner').fields[0].items
-    h.mk, h.ml = [], []
+    h.mk, h.ml, h.msbs = [], [], []
     for i, mb in enumerate(members):
         k = z3.BitVec(f'member{i}_binding_kind', 64)
         l = z3.BitVec(f'member{i}_location', 32)
-        c.set(mb, 'binding', some(binding(k, l)))
+        # dual-source blending: the attribute selects the blend SOURCE of a location, it does not add a location (the pinned
+        # code never looks at it, so it is symbolic)
+        sb = z3.Bool(f'member{i}_second_blend_source')
+        h.msbs.append(sb)
+        c.set(mb, 'binding', some(binding(k, l, sb)))
         h.mk.append(k)
         h.ml.append(l)
     h.assume = [z3.ULT(h.extra_stage, 3), z3.ULT(h.res_kind, 2), z3.ULT(h.res_kind2, 2)] + [z3.ULT(k, 2) for k in h.mk]
@@ -150,6 +155,7 @@ def vals_of(h, m):
     res2 = 'none' if not g(h.has_res2) else ('struct' if not g(h.res_bound2) else ('loc' if g(h.res_kind2) == h.B['Location'] else 'builtin'))
     return {'wg': tuple(g(w) for w in h.wg), 'res': res, 'loc': g(h.res_loc), 'res2': res2, 'loc2': g(h.res_loc2), 'ov_default': g(h.ov_default),
             'members': [('loc' if g(k) == h.B['Location'] else 'builtin', g(l)) for k, l in zip(h.mk, h.ml)],
+            'second_blend_source': [bool(g(b)) for b in h.msbs],
             'extra_stage': g(h.extra_stage)}
 
 
@@ -350,6 +356,7 @@ def native(ctx):
         v = {'wg': tuple(ctx.rng.choice([1, 2, 64, 65535, 2 ** 32 - 1]) for _ in range(3)),
              'res': ctx.rng.choice(['none', 'loc', 'builtin', 'struct']), 'loc': ctx.rng.choice([0, 1, 3, 7]),
              'members': [(ctx.rng.choice(['loc', 'loc', 'builtin']), l) for l in locs], 'extra_stage': ctx.rng.randrange(3),
+             'second_blend_source': [ctx.rng.random() < 0.25 for _ in locs],
              'res2': ctx.rng.choice(['none', 'loc', 'loc', 'struct']), 'loc2': ctx.rng.choice([0, 2, 5]), 'ov_default': ctx.rng.random() < 0.5}
         if v['res'] == 'builtin' and v['res2'] == 'builtin':
             v['res2'] = 'loc'
